@@ -414,3 +414,19 @@ Definition read_child (o : objs) (nodes : list tnode) (c : nchild) : option bnd 
       end
   | NNode t h => if h then option_map BNode (node_uid nodes t) else None
   end.
+
+(* ---- the implicit-surface path of Effect.load ("whoever exported this file didn't include the
+   proper references"): a shading <texture> that names no sampler of the scope but the id of a
+   library IMAGE gets a surface and a sampler made for it on the spot, initialised from that
+   image; otherwise the property is dropped.  (Not part of [load_effect_body]: the generators
+   never write such a texture, so the correspondence does not exercise it.) *)
+Inductive tex_binding := TSampler (u : uid) | TImplicit (img : uid) | TDropped.
+
+Definition bind_texture (o : objs) (sc : escope) (name : ident) : tex_binding :=
+  match find_sampler sc name with
+  | Some u => TSampler u
+  | None => match lookup o LImages name with
+            | Some iu => TImplicit iu
+            | None => TDropped
+            end
+  end.
